@@ -84,60 +84,65 @@ func (c *Ctx) EvalModel(rule string) *evalModel {
 	if m.frameAnns == nil {
 		m.problems = append(m.problems, "no per-activation annotations variable (an Alloc of type annotations) in the evaluator")
 	}
-	// sites
-	for _, fn := range m.Nest {
-		core.EachInstr(fn, func(i ssa.Instruction) {
-			call, ok := i.(ssa.CallInstruction)
-			if !ok || call.Common().StaticCallee() != E {
-				return
+	// sites: calls of the evaluator in its own body, in its closures and in the transparent helpers it calls
+	// (a helper's parameters are replaced by the arguments of the call path that leads there)
+	for _, fi := range c.familyInstrs(E) {
+		i := fi.I
+		call, ok := i.(ssa.CallInstruction)
+		if !ok || call.Common().StaticCallee() != E {
+			continue
+		}
+		args := call.Common().Args
+		if len(args) != len(E.Params) {
+			m.problems = append(m.problems, "evaluation site with unexpected argument count at "+c.pos(i))
+			continue
+		}
+		var inst, sch, anns ssa.Value
+		for pi, p := range E.Params {
+			switch p {
+			case m.instParam:
+				inst = upValue(args[pi], fi.Path)
+			case m.schemaParam:
+				sch = upValue(args[pi], fi.Path)
+			case m.annsParam:
+				anns = upValue(args[pi], fi.Path)
 			}
-			args := call.Common().Args
-			if len(args) != len(E.Params) {
-				m.problems = append(m.problems, "evaluation site with unexpected argument count at "+c.pos(i))
-				return
-			}
-			var inst, sch, anns ssa.Value
-			for pi, p := range E.Params {
-				switch p {
-				case m.instParam:
-					inst = args[pi]
-				case m.schemaParam:
-					sch = args[pi]
-				case m.annsParam:
-					anns = args[pi]
+		}
+		fn := fi.Top().Parent()
+		var via ssa.CallInstruction
+		if len(fi.Path) > 0 {
+			via = fi.Path[0]
+		}
+		// expand closure parameters through the direct calls of the closure
+		expanded := false
+		if fn != E {
+			callers := m.directCallsOf(c, fn)
+			needs := false
+			for _, v := range []ssa.Value{inst, sch, anns} {
+				if p, ok := v.(*ssa.Parameter); ok && p.Parent() == fn {
+					needs = true
 				}
 			}
-			// expand closure parameters through the direct calls of the closure
-			expanded := false
-			if fn != E {
-				callers := m.directCallsOf(c, fn)
-				needs := false
-				for _, v := range []ssa.Value{inst, sch, anns} {
-					if p, ok := v.(*ssa.Parameter); ok && p.Parent() == fn {
-						needs = true
-					}
-				}
-				if needs && len(callers) > 0 {
-					expanded = true
-					for _, cs := range callers {
-						sub := func(v ssa.Value) ssa.Value {
-							if p, ok := v.(*ssa.Parameter); ok && p.Parent() == fn {
-								for pi, pp := range fn.Params {
-									if pp == p && pi < len(cs.Common().Args) {
-										return cs.Common().Args[pi]
-									}
+			if needs && len(callers) > 0 {
+				expanded = true
+				for _, cs := range callers {
+					sub := func(v ssa.Value) ssa.Value {
+						if p, ok := v.(*ssa.Parameter); ok && p.Parent() == fn {
+							for pi, pp := range fn.Params {
+								if pp == p && pi < len(cs.Common().Args) {
+									return cs.Common().Args[pi]
 								}
 							}
-							return v
 						}
-						m.Sites = append(m.Sites, &evalSite{Call: call, Fn: cs.Parent(), Via: cs, Inst: sub(inst), Schema: sub(sch), Anns: sub(anns)})
+						return v
 					}
+					m.Sites = append(m.Sites, &evalSite{Call: call, Fn: cs.Parent(), Via: cs, Inst: sub(inst), Schema: sub(sch), Anns: sub(anns)})
 				}
 			}
-			if !expanded {
-				m.Sites = append(m.Sites, &evalSite{Call: call, Fn: fn, Inst: inst, Schema: sch, Anns: anns})
-			}
-		})
+		}
+		if !expanded {
+			m.Sites = append(m.Sites, &evalSite{Call: call, Fn: fn, Via: via, Inst: inst, Schema: sch, Anns: anns})
+		}
 	}
 	for _, s := range m.Sites {
 		s.Loc = m.instLoc(c, s.Inst, map[ssa.Value]bool{})
@@ -234,6 +239,21 @@ func (m *evalModel) instLoc(c *Ctx, v ssa.Value, seen map[ssa.Value]bool) string
 	case *ssa.Parameter:
 		if x == m.instParam {
 			return "same"
+		}
+		// the parameter of a transparent helper denotes what its callers pass
+		if x.Parent() != m.E && c.transparent(x.Parent()) {
+			if args := c.P.ArgsFor(x); len(args) > 0 {
+				res := ""
+				for _, a := range args {
+					r := m.instLoc(c, a, seen)
+					if res == "" {
+						res = r
+					} else if res != r {
+						return "?"
+					}
+				}
+				return res
+			}
 		}
 		return "child"
 	case *ssa.UnOp:
